@@ -1,5 +1,6 @@
 \* the behaviour of the tree before the two C19 repairs: must violate the property
 CONSTANTS
+  MCTrees <- MCTreesQuick
   KeepFirstError = FALSE
   RecoverPerStage = FALSE
 SPECIFICATION MCSpec
